@@ -46,7 +46,12 @@ func (r *Eval) Run(ctx context.Context, script []byte) (Object, *Bytecode, error
 		return nil, nil, err
 	}
 
-	bytecode.Main.NumParams = bytecode.Main.NumLocals
+	if !bytecode.Main.Variadic {
+		// Locals of earlier scripts are given to the VM as arguments.
+		// A script declaring a variadic parameter keeps its own parameter
+		// count, otherwise the last local would take the variadic arguments.
+		bytecode.Main.NumParams = bytecode.Main.NumLocals
+	}
 	r.Opts.Constants = bytecode.Constants
 	r.fixOpPop(bytecode)
 	r.VM.SetBytecode(bytecode)
